@@ -50,6 +50,7 @@ type vConc struct {
 	trStep int64
 	alBase uint64 // abstract alignment a>=5 -> alBase + (a-5) ; 0 -> 0
 	stream bool   // EncodeStream / DecodeStream(one byte at a time) instead of Encode / Decode
+	wide   int    // >0: every variable-length sample carries about this many bytes
 }
 
 var vConcs = []vConc{
@@ -66,6 +67,12 @@ var vConcs = []vConc{
 		fixed: [4]telem.DataType{"", telem.Uint8T, telem.Uint8T, telem.Uint8T}, varT: telem.BytesT,
 		trBase: 10, trStep: 10, alBase: 1<<32 | 0, stream: true},
 }
+
+// vWide is used for a fraction of the cases only: variable-length samples of ~40 KB, so
+// that series payloads of 40..250 KB go through the codec (buffers that grow in chunks)
+var vWide = vConc{name: "wide", keys: [4]channel.Key{0, 7, 8, 9}, unk: 1,
+	fixed: [4]telem.DataType{"", telem.Float64T, telem.Uint8T, telem.Int16T}, varT: telem.BytesT,
+	trBase: 5, trStep: 7, alBase: 3<<32 | 17, wide: 40000}
 
 func (c *vConc) ts(i int) telem.TimeStamp {
 	if i == 0 {
@@ -84,11 +91,13 @@ func (c *vConc) al(a int) telem.Alignment {
 func vDensity(dt telem.DataType) int { return int(dt.Density()) }
 
 // vSeriesData builds l samples whose bytes identify (raw index, position).
-func vSeriesData(dt telem.DataType, raw, l int) []byte {
+func vSeriesData(dt telem.DataType, raw, l int) []byte { return vSeriesDataW(dt, raw, l, 0) }
+
+func vSeriesDataW(dt telem.DataType, raw, l, wide int) []byte {
 	if dt.IsVariable() {
 		out := []byte{}
 		for p := 0; p < l; p++ {
-			n := (raw + 2*p) % 4
+			n := (raw+2*p)%4 + wide
 			var pre [4]byte
 			binary.LittleEndian.PutUint32(pre[:], uint32(n))
 			out = append(out, pre[:]...)
@@ -342,7 +351,7 @@ func vNewPair(cfg vLCfg, conc *vConc) vCodecPair {
 }
 
 type vLStats struct {
-	cases, merged2, merged3 int
+	cases, merged2, merged3, wide int
 	flags                   [64]int
 }
 
@@ -372,7 +381,7 @@ func vLayoutCase(fr vLFrame, cfgName string, conc *vConc, pair vCodecPair, st *v
 			dt = conc.fixed[k]
 		}
 		keys[i] = conc.keys[k]
-		series[i] = telem.Series{DataType: dt, Data: vSeriesData(dt, i, l),
+		series[i] = telem.Series{DataType: dt, Data: vSeriesDataW(dt, i, l, conc.wide),
 			TimeRange: telem.TimeRange{Start: conc.ts(s[2]), End: conc.ts(s[3])}, Alignment: conc.al(s[4])}
 		if inState[k] {
 			keptK = append(keptK, keys[i])
@@ -507,12 +516,22 @@ func TestVerifCodecLayout(t *testing.T) {
 					}
 					seen[sig] = true
 					for cfgName := range fr.E {
-						for ci := 0; ci < nconc; ci++ {
+						for ci := 0; ci <= nconc; ci++ {
 							// rotate concretisations over lines so that all are used even with nconc small
 							conc := &vConcs[(ci+i)%len(vConcs)]
+							if ci == nconc {
+								// one line in eight also runs with ~40 KB samples on the variable-length keys
+								if i%8 != 0 || len(vLCfgs[cfgName].vars) == 0 {
+									continue
+								}
+								conc = &vWide
+							}
 							id := p + "/" + cfgName + "/" + conc.name
 							if only != "" && only != id {
 								continue
+							}
+							if conc.wide > 0 {
+								stats[w].wide++
 							}
 							pk := cfgName + "/" + conc.name
 							pair, ok := pairs[pk]
@@ -542,6 +561,7 @@ func TestVerifCodecLayout(t *testing.T) {
 		tot.cases += stats[w].cases
 		tot.merged2 += stats[w].merged2
 		tot.merged3 += stats[w].merged3
+		tot.wide += stats[w].wide
 		for i := range tot.flags {
 			tot.flags[i] += stats[w].flags[i]
 		}
@@ -554,7 +574,7 @@ func TestVerifCodecLayout(t *testing.T) {
 		}
 	}
 	out.row(vRow{"summary": true, "lines": len(lines), "cases": tot.cases, "bad": nbad, "flag_bytes_seen": nf,
-		"merged2": tot.merged2, "merged3": tot.merged3})
+		"merged2": tot.merged2, "merged3": tot.merged3, "wide_payload_cases": tot.wide})
 }
 
 // ---------------------------------------------------------------- CodecSync
@@ -654,7 +674,7 @@ func vSyncReplay(hist []vSStep, conc *vConc, static bool) (step int, kind, what 
 				if k == 2 {
 					dt = conc.varT
 				}
-				s := telem.Series{DataType: dt, Data: vSeriesData(dt, nframe%3, 1+(k+nframe)%2),
+				s := telem.Series{DataType: dt, Data: vSeriesDataW(dt, nframe%3, 1+(k+nframe)%2, conc.wide),
 					TimeRange: telem.TimeRange{Start: conc.ts(1), End: conc.ts(2 + k%2)},
 					Alignment: conc.al(5 + (k+nframe)%3)}
 				keys = append(keys, conc.keys[k])
@@ -734,6 +754,9 @@ func TestVerifCodecSync(t *testing.T) {
 					continue
 				}
 				conc := &vConcs[i%len(vConcs)]
+				if i%50 == 7 {
+					conc = &vWide
+				}
 				step, kind, what := vSyncReplay(hist, conc, i%3 == 0)
 				cs[w].replayed++
 				for _, st := range hist {
@@ -1188,7 +1211,6 @@ func TestVerifCodecDecode(t *testing.T) {
 		}
 		return &vConcs[0]
 	}
-	var maxRatioIn, maxRatioAlloc uint64
 	judge := func(i int, in vDIn, conc *vConc, b []byte, mut bool, claim uint64, res vDRes, stream bool) {
 		st["runs"]++
 		st[res.out]++
@@ -1211,9 +1233,6 @@ func TestVerifCodecDecode(t *testing.T) {
 				res.alloc, len(b), vBound(len(b)), claim, res.msg)
 			report(base)
 			return
-		}
-		if !stream && len(b) > 0 && res.alloc*uint64(maxRatioIn+1) > maxRatioAlloc*uint64(len(b)+1) {
-			maxRatioIn, maxRatioAlloc = uint64(len(b)), res.alloc
 		}
 		if !mut && in.Hex == "" && in.Out != res.out {
 			base["r"], base["kind"] = "drift", "outcome"
@@ -1286,8 +1305,7 @@ func TestVerifCodecDecode(t *testing.T) {
 	out.row(vRow{"summary": true, "inputs": len(ins), "runs": st["runs"], "frames": st["frame"], "errors": st["error"],
 		"panics": st["panic"], "mutants": st["mutants"], "skipped_wire_claim": st["skipped_wire_claim"],
 		"exact_measurements": st["exact_measurements"],
-		"wire_alloc_seen": wireAlloc, "bad": nbad,
-		"max_ratio": fmt.Sprintf("%d bytes allocated for %d input bytes", maxRatioAlloc, maxRatioIn)})
+		"wire_alloc_seen": wireAlloc, "bad": nbad})
 }
 
 // TestVerifCodecHuge runs inputs whose length fields carry 2^32-1 with one-byte samples
